@@ -198,11 +198,14 @@ def judge(case, run, result):
             workers.setdefault(e["pid"], []).append(e)
     for wid, evs in workers.items():
         kinds = [e["kind"] for e in evs]
+        flavour = next((e.get("flavour") for e in evs if e["kind"] == "start"), None)
+        wmech = "C02/systemexit-orphans-trio" if trigger.startswith("systemexit_") and flavour == "trio" else None
         if "start" in kinds and not ("end" in kinds or "cancelled" in kinds):
-            problems.append(("trigger %s: worker %s adopted by a dispatcher was started but neither finished nor cancelled when accept ended" % (trigger, wid), None))
+            problems.append(("trigger %s: %s worker %s adopted by a dispatcher was started but neither finished nor cancelled when accept ended"
+                             % (trigger, flavour, wid), wmech))
             break
         if any(e["seq"] > end_seq for e in evs):
-            problems.append(("trigger %s: worker %s adopted by a dispatcher executed steps after accept had ended" % (trigger, wid), None))
+            problems.append(("trigger %s: %s worker %s adopted by a dispatcher executed steps after accept had ended" % (trigger, flavour, wid), wmech))
             break
     if workers:
         result.count("dispatcher_workers_judged", len(workers))
